@@ -4,11 +4,11 @@ scripted sink. C07 (a) and C09. -/
 namespace FV
 
 /-- outcome of one `pipe.write(buf)` call: `accept n` = `Ok(n)` with `n ≥ 1` (clamped to what was offered),
-`zero` = `Ok(0)`, `fail` = `Err(e)` -/
-inductive WriteEv | accept (n : Nat) | zero | fail
+`zero` = `Ok(0)`, `fail k` = `Err(e)` with `e.kind()` the `k`-th `io::ErrorKind` (the code never looks at it) -/
+inductive WriteEv | accept (n : Nat) | zero | fail (k : Nat)
 deriving Repr, DecidableEq
 
-inductive SendOut | done | brokenPipe | err | blocked
+inductive SendOut | done | brokenPipe | err (k : Nat) | blocked
 deriving Repr, DecidableEq
 
 structure SendRes where
@@ -30,7 +30,7 @@ def writeAll (msg : Bytes) : List WriteEv → Nat → Bytes → Nat → SendRes
           let k := min n (msg.length - pos)
           writeAll msg evs' (pos + k) (sink ++ (msg.drop pos).take k) (used + 1)
       | .zero :: evs' => ⟨.brokenPipe, pos ≠ 0, sink, evs', used + 1⟩
-      | .fail :: evs' => ⟨.err, pos ≠ 0, sink, evs', used + 1⟩
+      | .fail k :: evs' => ⟨.err k, pos ≠ 0, sink, evs', used + 1⟩
 
 /-- invariant of a send in progress: the sink holds what it held plus the first `pos` bytes of the message -/
 theorem writeAll_spec (msg : Bytes) :
@@ -38,7 +38,7 @@ theorem writeAll_spec (msg : Bytes) :
       let r := writeAll msg evs pos (sink0 ++ msg.take pos) used
       ∃ j, pos ≤ j ∧ j ≤ msg.length ∧ r.sink = sink0 ++ msg.take j ∧
         (r.out = .done → j = msg.length ∧ r.poisoned = false) ∧
-        (r.out = .brokenPipe ∨ r.out = .err → (r.poisoned = true ↔ j ≠ 0) ∧ j < msg.length) ∧
+        (r.out = .brokenPipe ∨ (∃ k, r.out = .err k) → (r.poisoned = true ↔ j ≠ 0) ∧ j < msg.length) ∧
         r.used ≤ used + (j - pos) + 1 ∧
         (r.out = .blocked → r.evs = []) := by
   intro evs
@@ -58,7 +58,7 @@ theorem writeAll_spec (msg : Bytes) :
       cases ev with
       | zero =>
         exact ⟨pos, by omega, by omega, rfl, fun h => by simp at h, fun _ => ⟨by simp, by omega⟩, by simp, fun h => by simp at h⟩
-      | fail =>
+      | fail k =>
         exact ⟨pos, by omega, by omega, rfl, fun h => by simp at h, fun _ => ⟨by simp, by omega⟩, by simp, fun h => by simp at h⟩
       | accept n =>
         simp only
@@ -110,7 +110,7 @@ theorem C09_send_fault (msg : Bytes) (evs : List WriteEv) (sink0 : Bytes) :
     let r := writeAll msg evs 0 sink0 0
     ∃ j, j ≤ msg.length ∧ r.sink = sink0 ++ msg.take j ∧ r.used ≤ j + 1 ∧
       (r.out = .done → j = msg.length) ∧
-      (r.out = .brokenPipe ∨ r.out = .err → j < msg.length ∧ (r.poisoned = true ↔ j ≠ 0)) := by
+      (r.out = .brokenPipe ∨ (∃ k, r.out = .err k) → j < msg.length ∧ (r.poisoned = true ↔ j ≠ 0)) := by
   have := writeAll_spec msg evs 0 sink0 0 (by omega)
   simp only [List.take_zero, List.append_nil] at this
   obtain ⟨j, _, hj, hs, hd, hf, hu, _⟩ := this
